@@ -41,7 +41,7 @@ R1, R2 = "verif.example", "other.example"
 
 def shards(tier, seed):
     n = 14 if tier == "quick" else 16
-    return [{"name": f"rand{i}", "kind": "random", "n": 140 if tier == "quick" else 2500} for i in range(n)]
+    return [{"name": f"rand{i}", "kind": "random", "n": 450 if tier == "quick" else 2500} for i in range(n)]
 
 
 def make_config(rng):
